@@ -1,0 +1,56 @@
+//go:build verif
+
+package bufiox
+
+import "unsafe"
+
+// Read-only state projections for the /verif trace recorder. Nothing here sits on an execution path.
+
+// VerifReaderState is the projection of a DefaultReader onto the variables of the ReaderImpl specification.
+type VerifReaderState struct {
+	Ri, Len, Cap int
+	NPend        int
+	PendCaps     []int
+	RO           bool
+	HasErr       bool
+	Data         uintptr
+	Stats        int
+}
+
+// VerifState returns the current projection.
+func (r *DefaultReader) VerifState() VerifReaderState {
+	s := VerifReaderState{Ri: r.ri, Len: len(r.buf), Cap: cap(r.buf), NPend: len(r.pendingBuf),
+		RO: r.bufReadOnly, HasErr: r.err != nil, Stats: r.maxSizeStats.maxSize()}
+	for _, b := range r.pendingBuf {
+		s.PendCaps = append(s.PendCaps, cap(b))
+	}
+	if cap(r.buf) > 0 {
+		s.Data = uintptr(unsafe.Pointer(&r.buf[:1][0]))
+	}
+	return s
+}
+
+// VerifWriterState is the projection of a DefaultWriter onto the variables of the WriterImpl specification.
+type VerifWriterState struct {
+	Len, Cap     int
+	PendLens     []int
+	PendCaps     []int
+	HasErr       bool
+	DisableCache bool
+	Data         uintptr
+	Stats        int
+}
+
+// VerifState returns the current projection.
+func (w *DefaultWriter) VerifState() VerifWriterState {
+	s := VerifWriterState{Len: len(w.buf), Cap: cap(w.buf), HasErr: w.err != nil,
+		DisableCache: w.disableCache, Stats: w.maxSizeStats.maxSize()}
+	for _, b := range w.pendingBuf {
+		s.PendLens = append(s.PendLens, len(b))
+		s.PendCaps = append(s.PendCaps, cap(b))
+	}
+	if cap(w.buf) > 0 {
+		s.Data = uintptr(unsafe.Pointer(&w.buf[:1][0]))
+	}
+	return s
+}
